@@ -2,7 +2,7 @@
 //@ props C02 C04 C01
 //@ strength proved-unbounded
 //@ min-verified 2
-//@ assume singlesubst / alternatesubst / reversechainsinglesubst only assign fields of the glyph they are given (C04_single proves that for the first two); multiplesubst carries the contract PROVED in unit C04_mult; ligaturesubst the length clause of Ligature::apply PROVED in C04_lig; contextsubst / chaincontextsubst return apply_subst_context's result (PROVED in unit C02_ctx - the two units are mutually recursive in the code, each is verified against the other's contract; termination of that recursion is the recursion_limit argument, which strictly decreases: stated, not proved)
+//@ assume singlesubst / alternatesubst / reversechainsinglesubst only assign fields of the glyph they are given (C04_single proves that for the first two); multiplesubst carries the contract PROVED in unit C04_mult; ligaturesubst the contract PROVED in unit C04_ligs; contextsubst / chaincontextsubst return apply_subst_context's result (PROVED in unit C02_ctx - the two units are mutually recursive in the code, each is verified against the other's contract; termination of that recursion is the recursion_limit argument, which strictly decreases: stated, not proved)
 //@ assume MatchType::find_nth carries the contract PROVED in unit C02_find (clauses restated)
 //@ assume a Vec<RawGlyph> holds at most usize::MAX / 2 elements (Rust allocation limit)
 //@ assume LookupList::lookup_cache_gsub returns some cached lookup or an error; Rc is replaced by Box (only dereferenced); reversechainsinglesubst takes the Vec where the code passes it as a slice (deref coercion)
@@ -69,7 +69,7 @@ pub fn multiplesubst<T: GlyphData>(subtables: &Vec<MultipleSubst>, i: usize, gly
         final(glyphs)@.len() <= usize::MAX / 2,
 { unimplemented!() }
 
-/// from Ligature::apply's contract proved in unit C04_lig: (removed, skip)
+/// contract proved in unit C04_ligs (which builds on Ligature::apply, unit C04_lig): (removed, skip)
 #[verifier::external_body]
 pub fn ligaturesubst<T: GlyphData>(opt_gdef_table: Option<&GDEFTable>, subtables: &Vec<LigatureSubst>, match_type: MatchType, i: usize, glyphs: &mut Vec<RawGlyph<T>>)
     -> (r: Result<Option<(usize, usize)>, ParseError>)
